@@ -137,15 +137,20 @@ def cloneNode : Nat → Heap → Addr → Heap × Option Addr
 
 def clone (h : Heap) (a : Addr) : Heap × Option Addr := cloneNode h.cells.length h a
 
+/-- `p ? p->clone() : 0` -/
+def cloneOpt (h : Heap) (p : Option Addr) : Heap × Option Addr :=
+  match p with
+  | none => (h, none)
+  | some a => clone h a
+
 /-- `PDU::operator=(const PDU& other)` after the fix: the new inner chain is cloned first (so self-assignment is
     safe), then replaces the old one — also when `other` has no inner PDU. -/
 def assignBase (h : Heap) (a src : Addr) : Heap :=
   match h.get src with
   | none => h.fault
   | some s =>
-    let (h1, c) := match s.inner with
-      | none => (h, none)
-      | some i => clone h i
+    -- inner_pdu(other.inner_pdu() ? other.inner_pdu()->clone() : 0);
+    let (h1, c) := cloneOpt h s.inner
     innerPduPtr h1 a c
 
 /-- the pinned (unfixed) `PDU::operator=`: `copy_inner_pdu(other)` does nothing when `other` has no inner PDU -/
@@ -230,12 +235,6 @@ def releaseInner (h : Heap) (a : Addr) : Heap × Option Addr :=
   | none => (h.fault, none)
   | some n =>
     ((h.setInner a none).setParentOpt n.inner none, n.inner)
-
-/-- `rhs.pdu() ? rhs.pdu()->clone() : 0` -/
-def cloneOpt (h : Heap) (p : Option Addr) : Heap × Option Addr :=
-  match p with
-  | none => (h, none)
-  | some a => clone h a
 
 /-! ### PDUOption (value level: the small-buffer/heap union is observed by the sanitizers only) -/
 
